@@ -42,9 +42,9 @@ def table_m(facts, rep, rule_guard, rule_kind, self_ty=MEM, trait="FileSystem", 
             if sets is None:
                 rep.fail(rule_guard, b.id, "%s: %s" % (op, site_desc), "too many paths to analyse", line)
                 return set()
-            views = [GuardView(gs) for gs in sets]
+            views = [GuardView(gs, mm.inter) for gs in sets]
         else:
-            views = [GuardView(mm.guards(cb, bb))]
+            views = [GuardView(mm.guards(cb, bb), mm.inter)]
         got_all = None
         for gv in views:
             got = set()
@@ -216,6 +216,9 @@ def run(facts, rep, tier, ctx):
         from . import c07, c09
         c07.delegation(facts, rep, ws, rule="R01.5")
         c09.table_u(facts, rep, ws, rule="R01.5")
+        # a failed overlay removal must leave the union unchanged: marker only after the upper copy is gone
+        from . import c10
+        c10.marker_rules(facts, rep, ws, prefix="R01.5m", only=("R10.1", "R10.3"))
     except ImportError:
         rep.note("adapter rules (C07/C09) not available yet")
     rep.assume("Table O (what the OS enforces per std call) is frozen from POSIX/Linux semantics")
